@@ -1101,7 +1101,29 @@ class C07(Prop):
                     buf += b"\x00\x00\x01\x00\x01"
             mazes.append(S.d("Dns", bytes(buf)))
         over = overlong_via_pointer()
-        return [("overlong-via-pointer", over),
+
+        def descending(hops, fan=0):
+            """answer section: a NULL record whose RDATA is  tail | P1 | P2 | ... | Pn  with P1 -> tail and Pk -> Pk-1
+            (every pointer goes strictly BACKWARDS); then an NS record whose name points at Pn: `hops` hops in all;
+            `fan` further NS records pointing at Pn as well"""
+            hdr = 12
+            rd_at = hdr + 1 + 10
+            tail = b"\x03org\x00"
+            body = bytearray(tail)
+            prev = rd_at
+            for _ in range(hops - 1):
+                at = rd_at + len(body)
+                body += struct.pack(">H", 0xC000 | prev)
+                prev = at
+            if prev > 0x3FFF:
+                return None
+            ns = rr_wire(2, 1, 0, struct.pack(">H", 0xC000 | prev))
+            an = [rr_wire(10, 1, 0, bytes(body))] + [ns] * (1 + fan)
+            return S.d("Dns", msg_wire(an=an, fl=0x8000))
+        desc = [descending(h) for h in list(range(1, 41)) + [64, 100, 1000, 4000, 8000]]
+        desc += [descending(8000, fan=k) for k in ((50, 500) if tier == "quick" else (50, 500, 4000))]
+        desc = [c for c in desc if c is not None]
+        return [("overlong-via-pointer", over), ("descending-chains", desc),
                 ("pointer-graphs-name", graphs), ("pointer-graphs-question", gq), ("chains-1..64", chains),
                 ("fans", fans), ("mazes", mazes), ("corpus", S.corpus_d(("Dns", "DomainName"))),
                 ("targeted-special", special_d(rng, tier))]
